@@ -165,7 +165,10 @@ class C12(OutstationProp):
             if idle and ok_hdr and fn in (3, 4, 5) and sol and "obj=ok" in dtoks:
                 import c04 as C04mod
                 st_list = C04mod.control_statuses(sol[0][4:])
-                if st_list:
+                req_list = C04mod.control_statuses(b[2:])
+                # an echo that was truncated because it outgrew the transmit buffer is not judged here (the code
+                # reports no IIN2 bit then, DESIGN 7a; the master sees the short echo)
+                if st_list and req_list is not None and len(st_list) == len(req_list):
                     firstbad = next((x for x in st_list if x != 0), 0)
                     if firstbad == 4 and not (sol[0][3] & 0x04):
                         fails.append(("control-rejection-not-reported", "control request (function %d): the first failing object is NOT_SUPPORTED (statuses %s) but IIN2 = %#x"
